@@ -14,9 +14,30 @@ if [ -n "$(git -C "$REPO" status --porcelain --untracked-files=no)" ]; then
 fi
 trap 'git -C "$REPO" checkout -- . 2>/dev/null' EXIT
 out="$HERE/evidence/selftest-sensitivity.json"
-rows=()
+# Every finished patch is merged into the evidence file at once (rows are
+# replaced by patch name; each row names the /verif commit it was produced
+# at), so a run that is stopped early loses nothing.
+vc=$(git -C "$HERE" rev-parse --short HEAD 2>/dev/null || echo "?")
+merge_row() {
+  printf '%s\n' "$1" | python3 -c '
+import json, sys
+row = json.load(sys.stdin); out, vc = sys.argv[1], sys.argv[2]
+row["verif_commit"] = vc
+try: rows = json.load(open(out))["results"]
+except Exception: rows = []
+rows = [r for r in rows if r["patch"] != row["patch"]] + [row]
+rows.sort(key=lambda r: (not r["patch"].startswith("mutants/"), r["patch"]))
+json.dump({"selftest": "sensitivity", "results": rows}, open(out, "w"), indent=0)
+' "$out" "$vc"
+}
 shopt -s nullglob
 patches=("$HERE"/mutants/*.diff "$HERE"/seeded/*/patch.diff)
+# SENS_ONLY_SEEDED=1: skip the own catalogue; SENS_ORDER=reverse: last patch
+# first (two streams on two copies of the tree can then meet in the middle)
+[ -n "${SENS_ONLY_SEEDED:-}" ] && patches=("$HERE"/seeded/*/patch.diff)
+if [ "${SENS_ORDER:-}" = reverse ]; then
+  rev=(); for ((k=${#patches[@]}-1; k>=0; k--)); do rev+=("${patches[k]}"); done; patches=("${rev[@]}")
+fi
 for patch in "${patches[@]}"; do
   case "$patch" in
     */seeded/*) name="seeded/$(basename "$(dirname "$patch")")"; meta="$(dirname "$patch")/meta.json"
@@ -25,7 +46,7 @@ for patch in "${patches[@]}"; do
   esac
   [ -n "$only" ] && [[ "$name" != *"$only"* ]] && continue
   if ! git -C "$REPO" apply "$patch" 2>/dev/null && ! { git -C "$REPO" apply -3 "$patch" 2>/dev/null && git -C "$REPO" reset -q; }; then
-    echo "$name: patch does not apply"; rows+=("{\"patch\":\"$name\",\"property\":\"$prop\",\"applies\":false}"); continue
+    echo "$name: patch does not apply"; merge_row "{\"patch\":\"$name\",\"property\":\"$prop\",\"applies\":false}"; continue
   fi
   res=""
   caught=""
@@ -40,23 +61,7 @@ for patch in "${patches[@]}"; do
   git -C "$REPO" checkout -- .
   rm -f "$HERE"/replays/*.json
   echo "$name (breaks $prop): caught by:${caught:- NONE}"
-  rows+=("{\"patch\":\"$name\",\"property\":\"$prop\",\"applies\":true,\"caught_by\":\"${caught# }\",\"checks\":{${res%,}}}")
+  merge_row "{\"patch\":\"$name\",\"property\":\"$prop\",\"applies\":true,\"caught_by\":\"${caught# }\",\"checks\":{${res%,}}}"
 done
-# A full run rewrites the evidence file; a filtered run replaces only the rows
-# of the patches it ran (each row names the /verif commit it was produced at).
-vc=$(git -C "$HERE" rev-parse --short HEAD 2>/dev/null || echo "?")
-printf '[%s]\n' "$(IFS=,; echo "${rows[*]}")" | python3 -c '
-import json, sys
-new = json.load(sys.stdin); out, vc, full = sys.argv[1], sys.argv[2], sys.argv[3] == ""
-for r in new: r["verif_commit"] = vc
-old = []
-if not full:
-    try: old = json.load(open(out))["results"]
-    except Exception: old = []
-names = {r["patch"] for r in new}
-rows = [r for r in old if r["patch"] not in names] + new
-rows.sort(key=lambda r: (not r["patch"].startswith("mutants/"), r["patch"]))
-json.dump({"selftest": "sensitivity", "results": rows}, open(out, "w"), indent=0)
-' "$out" "$vc" "$only"
 "$HERE/check" build >/dev/null 2>&1
 exit 0
